@@ -24,6 +24,7 @@ import (
 	"math/rand"
 	"net/netip"
 	"os"
+	"sort"
 	"strings"
 	"sync"
 	"testing"
@@ -213,6 +214,56 @@ func (l *vC07Lab) askVictims(p *vC07Pipe) (bad []string, desc []string) {
 	return bad, desc
 }
 
+// health: the state a hostile exchange must leave untouched - NS-address cache and delegation cache
+// entries for the honest zones hold genuine data only, and the victim names still resolve genuinely
+func (l *vC07Lab) health(p *vC07Pipe) (bad []string, desc []string) {
+	genuineAddr := map[string]string{"ns.victim.l2.": vC07AddrVictim, "ns.bank.l1.": vC07AddrBank, "ns.bank.l3.": vC07AddrBank,
+		"ns.l1.": vC07AddrT1, "ns.l2.": vC07AddrT2, "www.victim.l2.": "", "mail.victim.l2.": "", "www.bank.l1.": "", "victim.l2.": ""}
+	var names []string
+	for k := range genuineAddr {
+		names = append(names, k)
+	}
+	sort.Strings(names)
+	for _, name := range names {
+		if addrs, ok := p.h.resolver.getIPv4Cache(name); ok {
+			for _, a := range addrs {
+				if a.String() != genuineAddr[name] {
+					bad = append(bad, fmt.Sprintf("NS-address cache holds %s for %s", a, name))
+				}
+			}
+		}
+	}
+	genuineHosts := map[string]string{"victim.l2.": "ns.victim.l2.", "bank.l1.": "ns.bank.l1.", "bank.l3.": "ns.bank.l3.", "other.l2.": "ns.bank.l3.", "l1.": "ns.l1.", "l2.": "ns.l2."}
+	genuineSrv := map[string]string{"victim.l2.": vC07AddrVictim, "bank.l1.": vC07AddrBank, "bank.l3.": vC07AddrBank, "other.l2.": vC07AddrBank, "l1.": vC07AddrT1, "l2.": vC07AddrT2}
+	var zones []string
+	for z := range genuineHosts {
+		zones = append(zones, z)
+	}
+	sort.Strings(zones)
+	for _, z := range zones {
+		for _, cd := range []bool{true, false} {
+			d, err := p.h.resolver.delegations.Get(cache.Key(dns.Question{Name: z, Qtype: dns.TypeNS, Qclass: dns.ClassINET}, cd))
+			if err != nil {
+				continue
+			}
+			d.Servers.RLock()
+			for _, h := range d.Servers.Hosts {
+				if !strings.EqualFold(h, genuineHosts[z]) {
+					bad = append(bad, fmt.Sprintf("delegation cache names %s as a server of %s", h, z))
+				}
+			}
+			for _, sv := range d.Servers.List {
+				if sv.Addr != genuineSrv[z]+":53" {
+					bad = append(bad, fmt.Sprintf("delegation cache holds server %s for %s", sv.Addr, z))
+				}
+			}
+			d.Servers.RUnlock()
+		}
+	}
+	b2, vdesc := l.askVictims(p)
+	return append(bad, b2...), vdesc
+}
+
 func TestVerifC07Lab(t *testing.T) {
 	out := os.Getenv("VERIF_OUT")
 	if out == "" {
@@ -373,6 +424,7 @@ func TestVerifC07Lab(t *testing.T) {
 		})
 		p := l.newPipe(minLevel, scratch)
 		rep := p.ask(qs, dns.TypeA)
+		subs := p.rec.take()
 		askedAttack := l.drainAsked()
 		seen := map[string]bool{}
 		var repAns []string
@@ -490,6 +542,30 @@ func TestVerifC07Lab(t *testing.T) {
 				}(),
 				"glue_cache": glueDesc, "delegation_cache": delegDesc, "victim_replies": vdesc, "servers_asked_during_attack": vC07Sorted(askedAttack)},
 		})
+		// the same reply against the full alias-chase model, with the sub-queries the cache issued as the oracle
+		if rep != nil {
+			var oparts, odesc []string
+			for _, sr := range subs {
+				if sr.qtype != dns.TypeA {
+					continue
+				}
+				if sr.err {
+					oparts = append(oparts, fmt.Sprintf("(%s, SubErr)", vC07Parse(sr.name).coq()))
+					odesc = append(odesc, sr.name+": error")
+				} else {
+					oparts = append(oparts, fmt.Sprintf("(%s, SubResp %d %s %v)", vC07Parse(sr.name).coq(), sr.rcode, vC07CoqRRs(vC07FromRRs(sr.answer)), sr.hasNs))
+					odesc = append(odesc, fmt.Sprintf("%s: %s %v", sr.name, dns.RcodeToString[sr.rcode], vC07RRStrings(sr.answer)))
+				}
+			}
+			emit(map[string]any{
+				"k": "reply-" + tags[0],
+				"coq": fmt.Sprintf("CaseLabReply %s (mk_q %s 1 1) %s [%s] %d %s", vC07N(vC07Evil).coq(), qn.coq(), attack.coq(), strings.Join(oparts, ";"),
+					rep.Rcode, vC07CoqRRs(vC07FromRRs(rep.Answer))),
+				"nontrivial": len(subs) > 0,
+				"desc": map[string]any{"zone": vC07Evil, "question": qs, "attack": tags, "sent_rcode": attack.rcode, "sent_answer": vC07DescRRs(attack.answer),
+					"subqueries": odesc, "client_rcode": rep.Rcode, "client_reply_answer": repAns},
+			})
+		}
 	}
 
 	// ------------------------------------------------- rewritten question section
@@ -580,6 +656,153 @@ func TestVerifC07Lab(t *testing.T) {
 			"nontrivial": true, "go_fail": goFail,
 			"desc": map[string]any{"zone": vC07Evil, "question": qs, "echoed_question": fmt.Sprintf("%s %s", echoed.String(), dns.TypeToString[echoType]), "qname_min_level": minLevel,
 				"attack": tags, "sent_rcode": attack.rcode, "sent_answer": vC07DescRRs(attack.answer), "sent_authority": vC07DescRRs(attack.ns),
+				"client_rcode": crc, "client_reply_answer": repAns, "victim_replies": vdesc, "servers_asked_during_attack": vC07Sorted(askedAttack)},
+		})
+	}
+
+	// ----------------------------------------------------------------- DNAME
+	// the attacker publishes a DNAME (inside or outside its zone, pointing inside or outside) with a
+	// synthesised alias and a forged record for the rewritten name; Resolver.checkDname follows it
+	dnameN := n / 8
+	if dnameN < 6 {
+		dnameN = 6
+	}
+	for c := 0; c < dnameN; c++ {
+		minLevel := []int{0, 3}[r.Intn(2)]
+		d := fmt.Sprintf("d%d", c)
+		qs := "www." + d + ".evil.l1."
+		var ans []dns.RR
+		var tags []string
+		switch c % 6 {
+		case 0:
+			ans = []dns.RR{vC07RR(d + ".evil.l1. 300 IN DNAME victim.l2."), vC07RR(qs + " 300 IN CNAME www.victim.l2."), vC07RR("www.victim.l2. 300 IN A 6.6.6.20")}
+			tags = []string{"dname-out", "synth", "forged-tail"}
+		case 1:
+			ans = []dns.RR{vC07RR(d + ".evil.l1. 300 IN DNAME victim.l2."), vC07RR("www.victim.l2. 300 IN A 6.6.6.21")}
+			tags = []string{"dname-out", "forged-tail"}
+		case 2:
+			ans = []dns.RR{vC07RR("l1. 300 IN DNAME victim.l2."), vC07RR(qs + " 300 IN CNAME www." + d + ".evil.victim.l2."), vC07RR("www.bank.l1. 300 IN A 6.6.6.22")}
+			tags = []string{"dname-owner-above-zone", "forged-sibling"}
+		case 3:
+			ans = []dns.RR{vC07RR(d + ".evil.l1. 300 IN DNAME t.evil.l1."), vC07RR(qs + " 300 IN CNAME www.t.evil.l1."), vC07RR("www.t.evil.l1. 300 IN A 198.51.100.77"), vC07RR("mail.victim.l2. 300 IN A 6.6.6.23")}
+			tags = []string{"dname-in", "synth", "forged-unrelated"}
+		case 4:
+			ans = []dns.RR{vC07RR("www.victim.l2. 300 IN A 6.6.6.24"), vC07RR(d + ".evil.l1. 300 IN DNAME victim.l2.")}
+			tags = []string{"forged-before-dname"}
+		default:
+			ans = []dns.RR{vC07RR(d + ".evil.l1. 300 IN DNAME bank.l1."), vC07RR(qs + " 300 IN CNAME www.bank.l1."), vC07RR("www.bank.l1. 300 IN A 6.6.6.25"), vC07RR("bank.l1. 300 IN NS ns.evil.l1.")}
+			tags = []string{"dname-sibling", "synth", "forged-tail", "forged-ns-in-answer"}
+		}
+		amsg := &dns.Msg{}
+		amsg.Authoritative = true
+		amsg.Answer = ans
+		l.evil.setHandle(func(q dns.Question) *dns.Msg {
+			if strings.EqualFold(q.Name, qs) && q.Qtype == dns.TypeA {
+				return amsg
+			}
+			if strings.EqualFold(q.Name, "www.t.evil.l1.") && q.Qtype == dns.TypeA {
+				m := &dns.Msg{}
+				m.Authoritative = true
+				m.Answer = []dns.RR{vC07RR("www.t.evil.l1. 300 IN A 198.51.100.77")}
+				return m
+			}
+			return l.honestEvil(q)
+		})
+		p := l.newPipe(minLevel, scratch)
+		rep := p.ask(qs, dns.TypeA)
+		askedAttack := l.drainAsked()
+		goFail := ""
+		var repAns []string
+		crc := -1
+		if rep != nil {
+			crc = rep.Rcode
+			repAns = vC07RRStrings(rep.Answer)
+			for _, rr := range rep.Answer {
+				if !l.truth(rr) {
+					goFail = "reply to " + qs + " relays " + vC07Ident(rr) + ", which the zone owning that name never published"
+				}
+			}
+		}
+		bad, vdesc := l.health(p)
+		p.close()
+		l.evil.setHandle(l.honestEvil)
+		if len(bad) > 0 {
+			goFail = strings.Join(bad, "; ")
+		}
+		emit(map[string]any{
+			"k": "attack-" + tags[0], "nontrivial": true, "go_fail": goFail,
+			"desc": map[string]any{"zone": vC07Evil, "question": qs, "qname_min_level": minLevel, "attack": tags, "sent_answer": vC07RRStrings(ans),
+				"client_rcode": crc, "client_reply_answer": repAns, "victim_replies": vdesc, "servers_asked_during_attack": vC07Sorted(askedAttack)},
+		})
+	}
+
+	// ------------------------------------------------- hostile minimised hops
+	// qname minimisation on and a deep question: the attacker's server is first asked shorter names;
+	// it answers THOSE with the hostile message and the full question honestly
+	minN := n / 6
+	if minN < 8 {
+		minN = 8
+	}
+	for c := 0; c < minN; c++ {
+		minLevel := []int{4, 5, 3}[c%3]
+		qn := vC07Name{fmt.Sprintf("m%d", c), "b", "c", "evil", "l1"}
+		qs := qn.String()
+		hop := vC07Name(qn[len(qn)-3-c%2:]) // c.evil.l1. or b.c.evil.l1.
+		attack, tags := vC07GenAttack(r, hop, dns.TypeA)
+		if c%4 == 3 {
+			// a referral that is valid for the minimised name, with hostile glue
+			attack = vC07Attack{
+				ns: []vC07RRSpec{{owner: hop, rrtype: dns.TypeNS, class: dns.ClassINET, ttl: 300, target: vC07N("ns.victim.l2.")},
+					{owner: hop, rrtype: dns.TypeNS, class: dns.ClassINET, ttl: 300, target: vC07N("ns.bank.l1.")},
+					{owner: hop, rrtype: dns.TypeNS, class: dns.ClassINET, ttl: 300, target: append(vC07Name{"ns"}, hop...)}},
+				extra: []vC07RRSpec{{owner: vC07N("ns.victim.l2."), rrtype: dns.TypeA, class: dns.ClassINET, ttl: 300, ip: vC07Rogue},
+					{owner: vC07N("ns.bank.l1."), rrtype: dns.TypeA, class: dns.ClassINET, ttl: 300, ip: vC07Rogue},
+					{owner: append(vC07Name{"ns"}, hop...), rrtype: dns.TypeA, class: dns.ClassINET, ttl: 300, ip: vC07Rogue}},
+			}
+			tags = []string{"min-referral", "glue-out", "glue-sibling", "glue-in"}
+		}
+		amsg := attack.msg()
+		hs := hop.String()
+		l.evil.setHandle(func(q dns.Question) *dns.Msg {
+			name := strings.ToLower(q.Name)
+			switch {
+			case name == strings.ToLower(hs) && q.Qtype == dns.TypeA:
+				return amsg
+			case name == strings.ToLower(qs) && q.Qtype == dns.TypeA:
+				m := &dns.Msg{}
+				m.Authoritative = true
+				m.Answer = []dns.RR{vC07RR(qs + " 300 IN A 198.51.100.70")}
+				return m
+			case dns.IsSubDomain("c.evil.l1.", name) && q.Qtype == dns.TypeA && !strings.HasPrefix(name, "ns."):
+				return vC07SoftNeg(vC07Evil, false) // empty non-terminals on the way
+			}
+			return l.honestEvil(q)
+		})
+		p := l.newPipe(minLevel, scratch)
+		rep := p.ask(qs, dns.TypeA)
+		askedAttack := l.drainAsked()
+		goFail := ""
+		var repAns []string
+		crc := -1
+		if rep != nil {
+			crc = rep.Rcode
+			repAns = vC07RRStrings(rep.Answer)
+			for _, rr := range rep.Answer {
+				if !l.truth(rr) {
+					goFail = "reply to " + qs + " relays " + vC07Ident(rr) + ", which the zone owning that name never published"
+				}
+			}
+		}
+		bad, vdesc := l.health(p)
+		p.close()
+		l.evil.setHandle(l.honestEvil)
+		if len(bad) > 0 {
+			goFail = strings.Join(bad, "; ")
+		}
+		emit(map[string]any{
+			"k": "minhop-" + tags[0], "nontrivial": true, "go_fail": goFail,
+			"desc": map[string]any{"zone": vC07Evil, "question": qs, "qname_min_level": minLevel, "hostile_at": hs, "attack": tags,
+				"sent_rcode": attack.rcode, "sent_answer": vC07DescRRs(attack.answer), "sent_authority": vC07DescRRs(attack.ns), "sent_additional": vC07DescRRs(attack.extra),
 				"client_rcode": crc, "client_reply_answer": repAns, "victim_replies": vdesc, "servers_asked_during_attack": vC07Sorted(askedAttack)},
 		})
 	}
